@@ -24,7 +24,7 @@ import numpy as np
 from .. import tlc
 from . import constellation_common as cc
 
-CARE = ["Rejects", "Accepts", "WellFormed", "Bijective", "UnitEnergy", "BitsPerSymbol", "IndexRaises", "ModulateOk", "ModulateLaw",
+CARE = ["Rejects", "Accepts", "WellFormed", "Bijective", "UnitEnergy", "BitsPerSymbol", "CopyIsEqual", "IndexRaises", "ModulateOk", "ModulateLaw",
         "ShapeKept", "MLDetection", "RoundTrip", "Unchecked",
         # frame laws of notes/CALL_DISCIPLINE.md
         "EarlierResultsUnchanged", "ArgumentsUnchanged", "ResultNotAliased", "RejectedChangesNothing"]
